@@ -3,6 +3,9 @@
 // harness: k_line_expand props=C10,C02 fns=Line::expand kind=bounded tier=quick timeout=600 obligation=Line::expand/E1 bound="width <= 2 expanded to <= 3, symbolic pen flag"
 // harness: k_line_contract_1 props=C10 fns=Line::trailers kind=bounded tier=thorough timeout=900 obligation="Line::contract(no cell lost or invented; only trailing default cells of an unwrapped row dropped)" bound="row width 1..3 contracted to 1"
 // harness: k_line_contract_2 props=C10 fns=Line::trailers kind=bounded tier=thorough timeout=900 obligation=Line::contract bound="row width 1..3 contracted to 2"
+// harness: k_line_text_1 props=C09 fns=Line::text,Line::chars kind=bounded tier=quick timeout=600 obligation=Line::text/E1 bound="width 1, cell from {default blank, 'a', blank with a non-default pen, U+00A0, U+0301}"
+// harness: k_line_text_2 props=C09 fns=Line::text,Line::chars kind=bounded tier=quick timeout=900 obligation=Line::text/E1 bound="width 2, cells from {default blank, 'a', blank with a non-default pen, U+00A0, U+0301}"
+// harness: k_line_text_3 props=C09 fns=Line::text,Line::chars kind=bounded tier=thorough timeout=1800 obligation=Line::text/E1 bound="width 3, cells from {default blank, 'a', blank with a non-default pen, U+00A0, U+0301}"
 #[cfg(kani)]
 mod verif_kani_line {
     use super::*;
@@ -14,9 +17,10 @@ mod verif_kani_line {
     }
 
     /// 0: default blank, 1: 'a', 2: blank carrying a non-default pen (not a default cell),
-    /// 3: U+00A0 in the default pen (a printable character, not padding)
+    /// 3: U+00A0 in the default pen (a printable character, not padding),
+    /// 4 (text units only): U+0301, a zero-width combining mark in a cell of its own
     fn cell_of(kind: u8) -> Cell {
-        if kind == 0 { Cell::blank(Pen::default()) } else if kind == 1 { Cell::new('a', Pen::default()) } else if kind == 2 { Cell::blank(italic()) } else { Cell::new('\u{a0}', Pen::default()) }
+        if kind == 0 { Cell::blank(Pen::default()) } else if kind == 1 { Cell::new('a', Pen::default()) } else if kind == 2 { Cell::blank(italic()) } else if kind == 3 { Cell::new('\u{a0}', Pen::default()) } else { Cell::new('\u{301}', Pen::default()) }
     }
 
     fn kind_of(c: &Cell) -> u8 {
@@ -271,4 +275,58 @@ mod verif_kani_line {
     }
 
 
+
+    fn char_of(kind: u8) -> char {
+        if kind == 1 { 'a' } else if kind == 3 { '\u{a0}' } else if kind == 4 { '\u{301}' } else { ' ' }
+    }
+
+    /// `Line::text()` is the cells' characters, in order, nothing added or dropped
+    /// (contents enumerated concretely inside the harness: String code with symbolic contents does not finish)
+    fn text_case(width: usize) {
+        let mut n = 0u32;
+        let mut k0 = 0u8;
+        while k0 < 5 {
+            let mut k1 = 0u8;
+            while k1 < (if width > 1 { 5 } else { 1 }) {
+                let mut k2 = 0u8;
+                while k2 < (if width > 2 { 5 } else { 1 }) {
+                    let kinds = [k0, k1, k2];
+                    let l = mk_line(width, &kinds, k0 == 1);
+                    let s = l.text();
+                    let mut it = s.chars();
+                    assert!(it.next() == Some(char_of(k0)));
+                    if width > 1 {
+                        assert!(it.next() == Some(char_of(k1)));
+                    }
+                    if width > 2 {
+                        assert!(it.next() == Some(char_of(k2)));
+                    }
+                    assert!(it.next().is_none());
+                    n += 1;
+                    k2 += 1;
+                }
+                k1 += 1;
+            }
+            k0 += 1;
+        }
+        kani::cover!(n >= 5);
+    }
+
+    #[kani::proof]
+    #[kani::unwind(7)]
+    fn k_line_text_1() {
+        text_case(1);
+    }
+
+    #[kani::proof]
+    #[kani::unwind(7)]
+    fn k_line_text_2() {
+        text_case(2);
+    }
+
+    #[kani::proof]
+    #[kani::unwind(7)]
+    fn k_line_text_3() {
+        text_case(3);
+    }
 }
